@@ -76,7 +76,37 @@ def gen_weight_case(rng):
     return dict(kind='weights', distr=list(distr), a=a, b=b, boundary=boundary, mb=mb, n=n, style=style, picks=picks)
 
 
+def gen_peaked_case(rng):
+    """d = 2, sharply peaked or oscillating model, few refinement steps: the combination technique's negative coefficients then
+    give combined moments with E[f^2] < E[f]^2 (negative raw variance) on a large share of the cases."""
+    r = rng.random()
+    if r < 0.45:
+        distrs, a, b = [['Uniform'], ['Uniform']], [0.0, 0.0], [1.0, 1.0]
+        boundary = rng.random() < 0.5
+        pos = list(rng.choice([(0.5, 0.5), (0.3, 0.6), (0.25, 0.75), (0.5, 0.25), (0.625, 0.375)]))
+        width = rng.choice([50.0, 200.0, 800.0])
+    elif r < 0.9:
+        mu = rng.choice([0.0, 0.2])
+        distrs, a, b = [['Normal', mu, 1.0], ['Normal', mu, 1.0]], [-math.inf, -math.inf], [math.inf, math.inf]
+        boundary = False
+        pos = list(rng.choice([(0.0, 0.0), (0.5, -0.5), (1.0, 0.0), (0.2, 0.2)]))
+        width = rng.choice([2.0, 8.0, 30.0])
+    else:
+        distrs, a, b = [['Uniform'], ['Normal', 0.0, 1.0]], [0.0, -math.inf], [1.0, math.inf]
+        boundary = False
+        pos = [rng.choice([0.5, 0.25]), rng.choice([0.0, 0.5])]
+        width = rng.choice([8.0, 50.0])
+    model = rng.choice(['peak', 'peak', 'osc'])
+    if model == 'osc' and distrs[0][0] == 'Uniform' and distrs[1][0] == 'Uniform':
+        width = 2.0 * math.sqrt(width)
+    maxev, lmax = rng.choice([(1, 2), (10, 2), (10, 2), (25, 2), (10, 3), (40, 3)])
+    return dict(kind='moments', distrs=distrs, a=a, b=b, boundary=boundary, c=rng.choice([2.0, -3.0, 0.5, -1.0, 4.0]),
+                e=rng.choice([0.0, 1.0, -2.0, 7.0, 0.25]), model=model, pos=pos, width=width, const=0.0, maxev=maxev, lmax=lmax)
+
+
 def gen_moment_case(rng):
+    if rng.random() < 0.5:
+        return gen_peaked_case(rng)
     dim = rng.choice([1, 2, 2, 2])
     distrs, a, b = [], [], []
     for _ in range(dim):
@@ -202,6 +232,10 @@ def impl_moments(case):
         def eval(self, x):
             if kind == 'const':
                 gv = const
+            elif kind == 'peak':
+                gv = math.exp(-case['width'] * sum((x[d] - case['pos'][d]) ** 2 for d in range(dim)))
+            elif kind == 'osc':
+                gv = math.cos(case['width'] * (x[0] - case['pos'][0])) * math.cos(case['width'] * (x[-1] - case['pos'][-1]))
             elif kind == 'smooth':
                 gv = math.sin(x[0]) + (0.5 * math.cos(2.0 * x[-1]) if dim > 1 else 0.25)
             else:
@@ -496,6 +530,12 @@ def check_moments(chk, cases, impl, keys, samples):
                 tol = F(1, 2 ** 45) * (abs(integral[k + j]) + integral[j] ** 2)
                 if abs(mV[j] - r['V'][j]) > tol:
                     bad = ('variance', dict(component=j, impl=float(r['V'][j]), model=float(mV[j])))
+        if any(integral[k + j] - integral[j] ** 2 < -F(1, 10 ** 9) * (1 + abs(integral[k + j])) for j in range(k)):
+            chk.count('moments:raw-variance-negative (mom2 < mom1^2)')
+            chk.extra['raw_variance_negative_cases'] = chk.extra.get('raw_variance_negative_cases', 0) + 1
+            if 'raw_negative_sample' not in chk.extra:
+                chk.extra['raw_negative_sample'] = dict(case=c, mom1=[float(x) for x in integral[:k]], mom2=[float(x) for x in integral[k:]],
+                                                        impl_variance=[float(x) for x in r['V']])
         orc = oracle_moments(c, r)
         if orc:
             chk.violation('oracle:moments/' + orc[0], 'moments-law', dict(sig0, clause=orc[0]), c, dict(property_predicate=orc[1], E=[float(x) for x in r['E']],
@@ -552,6 +592,14 @@ def corpus():
               c=3.0, e=-2.0, model='jump', const=1.75, maxev=60, lmax=2),
          dict(kind='moments', distrs=[['Uniform'], ['Triangle', 0.25]], a=[-1.0, 0.0], b=[3.0, 1.0], boundary=True,
               c=3.0, e=-2.0, model='const', const=1.75, maxev=40, lmax=2)]
+    m.append(dict(kind='moments', distrs=[['Uniform'], ['Uniform']], a=[0.0, 0.0], b=[1.0, 1.0], boundary=False, c=2.0, e=1.0, model='peak',
+                  pos=[0.5, 0.25], width=200.0, const=0.0, maxev=10, lmax=2))
+    m.append(dict(kind='moments', distrs=[['Uniform'], ['Uniform']], a=[0.0, 0.0], b=[1.0, 1.0], boundary=True, c=-3.0, e=0.25, model='peak',
+                  pos=[0.5, 0.5], width=200.0, const=0.0, maxev=10, lmax=2))
+    m.append(dict(kind='moments', distrs=[['Normal', 0.0, 1.0], ['Normal', 0.0, 1.0]], a=[-math.inf, -math.inf], b=[math.inf, math.inf],
+                  boundary=False, c=2.0, e=1.0, model='peak', pos=[0.0, 0.0], width=8.0, const=0.0, maxev=10, lmax=2))
+    m.append(dict(kind='moments', distrs=[['Normal', 0.0, 1.0], ['Normal', 0.0, 1.0]], a=[-math.inf, -math.inf], b=[math.inf, math.inf],
+                  boundary=False, c=0.5, e=-2.0, model='osc', pos=[0.0, 0.0], width=8.0, const=0.0, maxev=10, lmax=2))
     # exemplars of the known findings
     w.append(dict(kind='weights', distr=['Normal', 0.0, 1.0], a=-2.0, b=2.0, boundary=True, mb=False, n=6, style='random', picks=[0.0, 0.9, 0.3, 0.5]))
     m.append(dict(kind='moments', distrs=[['Uniform'], ['Uniform']], a=[0.0, 2.0], b=[1.0, 2.5], boundary=True, c=-3.0, e=0.0, model='jump',
@@ -568,7 +616,7 @@ def run(chk):
     rng = chk.rng
     wfix, mfix = corpus()
     wcases = wfix + [gen_weight_case(rng) for _ in range(chk.n(300, 10000))]
-    mcases = mfix + [gen_moment_case(rng) for _ in range(chk.n(40, 600))]
+    mcases = mfix + [gen_moment_case(rng) for _ in range(chk.n(80, 1200))]
     keys, samples = [], []
     wimpl = run_impl(impl_weights, wcases, limit=120)
     check_weights(chk, wcases, wimpl, keys, samples)
@@ -577,7 +625,8 @@ def run(chk):
     chk.record_cases(len(wcases) + len(mcases), keys,
                      'weights: (distribution in uniform/triangle/normal, finite or infinite support, boundary, modified basis for uniform, '
                      'refinement tree of 1..60 points built with the grid\'s own weighted midpoint, 5 grading styles); moments: adaptive '
-                     'runs (d 1..2, 20..70 evaluations) of a vector model (f, c f + e); non-trivial = >= 3 grid points resp. >= 5 sparse '
+                     'runs (d 1..2, 1..70 evaluations) of a vector model (f, c f + e) incl. sharply peaked / oscillating models in d = 2 whose raw combined '
+                     'variance mom2 - mom1^2 is negative (counted in evidence: raw_variance_negative_cases); non-trivial = >= 3 grid points resp. >= 5 sparse '
                      'grid points; distinct by all parameters', samples)
 
 
